@@ -134,9 +134,11 @@ inline GraphSpec ioSpecBig(Rng &r, bool directed) {
     g.directed = directed;
     unsigned n = 200 + r.u(1500);
     g.n = n + r.u(5);
-    unsigned target = 500 + r.u(3500);
+    // edge counts at and around powers of two (block / buffer sizes), or anything up to 9000 (text files beyond 64 KiB)
+    static const unsigned boundary[] = {255, 256, 257, 511, 512, 513, 1023, 1024, 1025, 1536, 2047, 2048, 2049, 4095, 4096, 4097, 8191, 8192, 8193};
+    unsigned target = r.chance(1, 2) ? boundary[r.u(19)] : 500 + r.u(8500);
     std::set<Edge> seen;
-    for (unsigned t = 0; t < target * 2 && seen.size() < target; ++t) {
+    for (unsigned t = 0; t < target * 20 && seen.size() < target; ++t) { // exactly `target` edges
         VertexIndex a = r.u(n), b = r.chance(1, 40) ? a : r.u(n);
         Edge e = canon(directed, a, b);
         if (seen.insert(e).second) g.edges.push_back(e);
